@@ -1000,6 +1000,10 @@ func (g *gen) headers(over []*Header) []*Header {
 		}
 		if g.oneIn(4, "hexample") {
 			h.Example = "example-1"
+			if (h.Type == "string" || h.Type == "") && g.oneIn(2, "hexhostile") && !g.avoid("header_example_untagged_yaml_scalar") {
+				h.Example = pick(g, []string{"no", "on", "123", "true", "null", "1.2.3", "~"}, "hexval")
+				g.tagf("header_example:yaml_hostile")
+			}
 		}
 		h.Deprecated = g.oneIn(8, "hdeprecated")
 		out = append(out, h)
